@@ -701,6 +701,10 @@ func (pr *ProtoArray) maybeUpdateBestChildAndDescendant(parentIndex NodeIndex, c
 			} else if (!childLeadsToViableHead) && bestChildLeadsToViableHead {
 				// The best child leads to a viable head, but the child doesn't.
 				// *No change*
+			} else if !childLeadsToViableHead && !bestChildLeadsToViableHead {
+				// Neither leads to a viable head: the parent has no best child,
+				// a non-viable best descendant would mask the parent (or a viable sibling visited later).
+				changeToNone()
 			} else if child.Weight == bestChild.Weight {
 				// Tie-breaker of equal weights by root. (smaller hash wins)
 				if bytes.Compare(child.Ref.Root[:], bestChild.Ref.Root[:]) > 0 {
